@@ -10,6 +10,8 @@ package sqlite
 
 import (
 	"context"
+	"encoding/binary"
+	"errors"
 	"fmt"
 	"io"
 	"log"
@@ -158,10 +160,22 @@ func TestVerifC17S2I(t *testing.T) {
 					id, sz := int(ids[k].(float64)), int(szs[k].(float64))
 					payload = append(payload, verifC17Event(uint32(id), sz-verifC17HeaderLen)...)
 				}
+				// what follows the complete events in the buffer handed to Apply
+				var wantErr error
+				switch st.Str("tail") {
+				case "partial": // the first 12 bytes of a 20-byte event
+					payload = append(payload, verifC17Event(9999, 8)[:12]...)
+					wantErr = binlog2.ErrorNotEnoughData
+				case "svc": // a crc32 record of fsbinlog
+					svc := make([]byte, 20)
+					binary.LittleEndian.PutUint32(svc, 0x04435243)
+					payload = append(payload, svc...)
+					wantErr = binlog2.ErrorUnknownMagic
+				}
 				r.e.mustWaitCommit = st.Bool("elapsed") || r.impl.state == waitToCommit
 				off, err := r.impl.Apply(payload)
-				if err != nil {
-					bad(i, "no error", err.Error(), "s2i/Apply", "")
+				if !errors.Is(err, wantErr) || (wantErr == nil && err != nil) {
+					bad(i, fmt.Sprint("error: ", wantErr), fmt.Sprint("error: ", err), "s2i/Apply", "error returned to the binlog")
 					ok = false
 					break steps
 				}
